@@ -50,3 +50,18 @@ func TestVerifWitnessRequiredEmptyParameter(t *testing.T) {
 func TestVerifWitnessResponsesLeadingZero(t *testing.T) {
 	verifRoundTripEqual(t, `{"040":{"description":"d"}}`, &Responses{})
 }
+
+func TestVerifWitnessRequiredEmptySecurityScheme(t *testing.T) {
+	t.Run("apiKey", func(t *testing.T) {
+		verifRoundTripEqual(t, `{"type":"apiKey","name":"","in":"header"}`, &SecurityScheme{})
+	})
+	t.Run("password", func(t *testing.T) {
+		verifRoundTripEqual(t, `{"type":"oauth2","flow":"password","tokenUrl":""}`, &SecurityScheme{})
+	})
+	t.Run("application", func(t *testing.T) {
+		verifRoundTripEqual(t, `{"type":"oauth2","flow":"application","tokenUrl":""}`, &SecurityScheme{})
+	})
+	t.Run("accessCode", func(t *testing.T) {
+		verifRoundTripEqual(t, `{"type":"oauth2","flow":"accessCode","authorizationUrl":"http://a","tokenUrl":""}`, &SecurityScheme{})
+	})
+}
